@@ -7,7 +7,7 @@ import Splipy.Model.Basis
 
 `curve_factory.{line, polygon, n_gon, circle, ellipse, circle_segment,
 circle_segment_from_three_points}`, `surface_factory.{square, disc, sphere, extrude, revolve,
-cylinder, torus}`, `volume_factory.{cube, sphere('radial'), revolve, torus, cylinder, extrude}` and
+cylinder, torus}`, `volume_factory.{cube, sphere('radial' and 'square'), revolve, torus, cylinder, extrude}` and
 the placement helpers `utils.rotate_local_x_axis`, `utils.flip_and_move_plane_geometry`, together
 with the `SplineObject` methods they use (`set_dimension`, `force_rational`, `rotate`, `translate`,
 `scale`).
@@ -291,10 +291,13 @@ def arcNet (r cd sd : K) (spans : ℕ) : List (Pt K) :=
     let p := angleIter cd sd i
     [r * p.1, r * p.2, if i % 2 = 1 then cd else 1])
 
+/-- the integer knot pattern `[0] ++ [0,0,1,1,…,n,n] ++ [n]` built by the loop of `circle_segment`. -/
+def arcInts (spans : ℕ) : List ℕ :=
+  [0] ++ ((List.range (spans + 1)).map (fun i => [i, i])).flatten ++ [spans]
+
 /-- `[0,0,0,1,1,2,2,…,n,n,n] / n * θ`. -/
 def arcKnots (theta : K) (spans : ℕ) : List K :=
-  let ints : List ℕ := [0] ++ ((List.range (spans + 1)).map (fun i => [i, i])).flatten ++ [spans]
-  ints.map (fun i => (i : K) / (spans : K) * theta)
+  (arcInts spans).map (fun (i : ℕ) => (i : K) / (spans : K) * theta)
 
 /-- `circle_segment(theta, r, center, normal, xaxis)`. -/
 def circleSegment (k : Consts K) (theta r : K) (center normal xaxis : List K)
@@ -524,6 +527,76 @@ def sphereVol (k : Consts K) (r : K) (center : List K) : PyM (Obj K) := do
   pure { bases := shell.bases.map (fun b => reparamBasis b 0 1) ++ [defaultBasis 2],
          shape := shell.shape ++ [2], cps := stackLast [shell.cps, mid.cps], rational := true,
          dim := shell.dim }
+
+/-! ### solid sphere, `type='square'` (Cobb's tiling of the sphere) -/
+
+/-- the literal 25-point list `cp` of `volume_factory.sphere(type='square')` (`wmin` face, rows as
+    written in the source). -/
+def cobbFlat (k : K × K × K) : List (Pt K) :=
+  let sr2 := k.1
+  let sr3 := k.2.1
+  let sr6 := k.2.2
+  [[-4*(sr3-1), 4*(1-sr3), 4*(1-sr3), 4*(3-sr3)],
+   [-sr2, sr2*(sr3-4), sr2*(sr3-4), sr2*(3*sr3-2)],
+   [0, 4/3*(1-2*sr3), 4/3*(1-2*sr3), 4/3*(5-sr3)],
+   [sr2, sr2*(sr3-4), sr2*(sr3-4), sr2*(3*sr3-2)],
+   [4*(sr3-1), 4*(1-sr3), 4*(1-sr3), 4*(3-sr3)],
+   [-sr2*(4-sr3), -sr2, sr2*(sr3-4), sr2*(3*sr3-2)],
+   [-(3*sr3-2)/2, (2-3*sr3)/2, -(sr3+6)/2, (sr3+6)/2],
+   [0, sr2*(2*sr3-7)/3, -5*sr6/3, sr2*(sr3+6)/3],
+   [(3*sr3-2)/2, (2-3*sr3)/2, -(sr3+6)/2, (sr3+6)/2],
+   [sr2*(4-sr3), -sr2, sr2*(sr3-4), sr2*(3*sr3-2)],
+   [-4/3*(2*sr3-1), 0, 4/3*(1-2*sr3), 4*(5-sr3)/3],
+   [-sr2/3*(7-2*sr3), 0, -5*sr6/3, sr2*(sr3+6)/3],
+   [0, 0, 4*(sr3-5)/3, 4*(5*sr3-1)/9],
+   [sr2/3*(7-2*sr3), 0, -5*sr6/3, sr2*(sr3+6)/3],
+   [4/3*(2*sr3-1), 0, 4/3*(1-2*sr3), 4*(5-sr3)/3],
+   [-sr2*(4-sr3), sr2, sr2*(sr3-4), sr2*(3*sr3-2)],
+   [-(3*sr3-2)/2, -(2-3*sr3)/2, -(sr3+6)/2, (sr3+6)/2],
+   [0, -sr2*(2*sr3-7)/3, -5*sr6/3, sr2*(sr3+6)/3],
+   [(3*sr3-2)/2, -(2-3*sr3)/2, -(sr3+6)/2, (sr3+6)/2],
+   [sr2*(4-sr3), sr2, sr2*(sr3-4), sr2*(3*sr3-2)],
+   [-4*(sr3-1), -4*(1-sr3), 4*(1-sr3), 4*(3-sr3)],
+   [-sr2, -sr2*(sr3-4), sr2*(sr3-4), sr2*(3*sr3-2)],
+   [0, -4/3*(1-2*sr3), 4/3*(1-2*sr3), 4/3*(5-sr3)],
+   [sr2, -sr2*(sr3-4), sr2*(sr3-4), sr2*(3*sr3-2)],
+   [4*(sr3-1), -4*(1-sr3), 4*(1-sr3), 4*(3-sr3)]]
+
+/-- `wmin[a,b]` (`Surface(b, b, cp)` reads the list in F order). -/
+def cobbWmin (k : K × K × K) (a b : ℕ) : Pt K := (cobbFlat k).getD (5 * b + a) []
+
+def negX : Pt K → Pt K | x :: r => (-x) :: r | p => p
+def negY : Pt K → Pt K | x :: y :: r => x :: (-y) :: r | p => p
+def negZ : Pt K → Pt K | x :: y :: z :: r => x :: y :: (-z) :: r | p => p
+
+/-- the six faces: `wmax = mirror_z wmin`, `vmax = rot_x(π/2) wmin`, `vmin = mirror_y vmax`,
+    `umax = rot_z(π/2) vmin`, `umin = mirror_x umax`. -/
+def cobbWmax (k : K × K × K) (a b : ℕ) : Pt K := negZ (cobbWmin k a b)
+def cobbVmax (k : K × K × K) (a b : ℕ) : Pt K := rotXPt 0 1 (cobbWmin k a b)
+def cobbVmin (k : K × K × K) (a b : ℕ) : Pt K := negY (cobbVmax k a b)
+def cobbUmax (k : K × K × K) (a b : ℕ) : Pt K := rotZPt 0 1 (cobbVmin k a b)
+def cobbUmin (k : K × K × K) (a b : ℕ) : Pt K := negX (cobbUmax k a b)
+
+/-- control point `[i,j,k]` of the unit ball: faces in the order the code assigns them (later
+    assignments overwrite earlier ones on shared edges), interior `linspace(-.5,.5,3)` grid. -/
+def cobbPoint (k : K × K × K) (i j l : ℕ) : Pt K :=
+  if i = 4 then cobbUmax k j l
+  else if i = 0 then cobbUmin k j l
+  else if j = 4 then cobbVmax k i l
+  else if j = 0 then cobbVmin k i l
+  else if l = 4 then cobbWmax k i j
+  else if l = 0 then cobbWmin k i j
+  else [((i : K) - 2) / 2, ((j : K) - 2) / 2, ((l : K) - 2) / 2, 1]
+
+/-- `volume_factory.sphere(r, center, 'square')`: `r*ball + center`;
+    `k = (s2, s3, s6)` stands for `(√2, √3, √6)`. -/
+def sphereVolSquare (k : K × K × K) (r : K) (center : List K) : PyM (Obj K) :=
+  let ball : Obj K :=
+    { bases := [defaultBasis 5, defaultBasis 5, defaultBasis 5], shape := [5, 5, 5],
+      cps := (List.range 5).flatMap (fun i => (List.range 5).flatMap (fun j =>
+               (List.range 5).map (fun l => cobbPoint k i j l))),
+      rational := true, dim := 3 }
+  (ball.scale [r]).translate center
 
 /-- `volume_factory.torus(minor_r, major_r, center, normal, xaxis, type)`. -/
 def torusVol (k : Consts K) (minorR majorR : K) (center normal xaxis : List K) (type : String)
